@@ -112,6 +112,22 @@ def gen_bytes(rng, kind=None):
     return bytes(rng.randrange(256) for _ in range(64))
 
 
+def near_family(rng, n=2):
+    """n different long strings with the same length, the same first and last 64+ bytes and a
+    different middle (certificates of one CA, keys of one format)"""
+    total = rng.choice([600, 1354, 2048, 4096])
+    head = b"-----BEGIN CERTIFICATE-----\nMIIDdzCCAl+gAwIBAgIEAgAAuTANBgkqhkiG9w0BAQUFADBaMQswCQYDVQQGEwJJ\n"
+    tail = b"\nR9I4LtD+gdwyah617jzV/OeBHRnDJELqYzmp\n-----END CERTIFICATE-----\n" + b"=" * 10
+    mid = total - len(head) - len(tail)
+    out = []
+    while len(out) < n:
+        m = bytes(rng.choice(b"ABCDEFGHIJKLMNOPQRSTUVWXYZabcdefghijklmnopqrstuvwxyz0123456789+/") for _ in range(mid))
+        v = head + m + tail
+        if v not in out:
+            out.append(v)
+    return out
+
+
 def gen_ids(rng):
     """identity pair (idA, idB) drawn from the classes that matter for transcripts"""
     c = rng.randrange(9)
